@@ -216,6 +216,7 @@ def run_unit(unit, repo='/repo', outdir=None, solver='z3', canary=True, timeout=
     res['generated'] = gpath
     res['generated_sha256'] = hashlib.sha256(gen.encode()).hexdigest()
     res['assumption_scan'] = scan_assumptions(gen)
+    res['imports'] = meta.get('imports')
     gen_lines = gen.split('\n')
 
     cmd = ['verus', os.path.basename(gpath), '--output-json', '--time-expanded', '--error-format=json',
